@@ -136,10 +136,25 @@ def coq_makefile():
             raise RuntimeError("coq_makefile failed:\n" + out)
 
 
+def hold_lock(name):
+    """blocking advisory lock (released when the process exits or the returned file is closed);
+    keeps concurrent runs from writing the same case directory / the same .vo files"""
+    import fcntl
+    d = os.path.join(os.path.dirname(CASES), "locks")
+    os.makedirs(d, exist_ok=True)
+    f = open(os.path.join(d, name + ".lock"), "w")
+    fcntl.flock(f, fcntl.LOCK_EX)
+    return f
+
+
 def coq_build(ctx, targets, timeout=1500):
     """make the given .vo targets; returns (ok, log)."""
-    coq_makefile()
-    rc, out = sh(["timeout", str(timeout), "make", "-j16"] + targets, cwd=COQ)
+    lock = hold_lock("coq-make")  # checks of different properties share .vo prerequisites
+    try:
+        coq_makefile()
+        rc, out = sh(["timeout", str(timeout), "make", "-j16"] + targets, cwd=COQ)
+    finally:
+        lock.close()
     ok = rc == 0
     if not ok:
         ctx.log("coq build FAILED")
